@@ -282,8 +282,18 @@ package actor
 
 // steps of the chain that run user code / the job scheduler: trusted frames (they tell nobody on behalf of the
 // core, do not touch the registry, and leave the core fields the later steps read alone)
+// handleChildDeath stays a trusted frame towards its callers (it runs the parent's behaviour - user code - for the
+// child's OnKilled), but its body is checked (`bodycheck`) for the ORDER of its two steps: the dead child's entry
+// leaves the child table BEFORE the behaviour sees the OnKilled. The table is keyed by path and the path is free
+// again by now, so a behaviour that re-creates the child under the same name enters a NEW entry, which a removal
+// after the behaviour would wipe - the parent would later terminate without that descendant.
 //@ func (*killedHandler).handleChildDeath
 //@   trusted
+//@   bodycheck
+//@   callspec executeBehaviorWithRecovery requires !(refPath(h.message.Ref) in h.ctx.children)
+//@   callspec executeBehaviorWithRecovery preserves h.ctx, h.message, h.message.Ref, h.behavior
+//@   assumes  h.message.Ref != nil && (typeis(h.message.Ref, "*actor.Ref") ==> !nilptr(h.message.Ref)) && h.behavior != nil
+//@   assumes  ctxwf(h.ctx) && h.ctx.envelop != nil && killedMsgOK(h.ctx) && h.ctx.children != nil
 //@   requires h.ctx != nil && h.message != nil && schedok(h.ctx)
 //@   modifies h.ctx.children[*], h.ctx.scheduler.jobKeys[*], gmap(schedtried), gmap(scheduled), gmap(deleted)
 //@   ensures  schedok(h.ctx)
